@@ -138,7 +138,7 @@ def check_status_line(ck, env):
         ck.ob(R, fi, c, idx == [(1, False), (2, True), (3, False)], "ResponseStartLine(version, int(code), reason) is built from groups 1, 2, 3 in order")
     rm = _F(ck, H1, "HTTP1Connection._read_message")
     client = atom_edges(rm.cfg, lambda a: True if q.dotted(a) == "self.is_client" else None)
-    prs = [(n, c) for n, c in rm.cfg.find(lambda x: isinstance(x, ast.Call) and resolve_call(ck.repo, rm, x) is fi)]
+    prs = [(n, c) for n, c in rm.cfg.find(lambda x: isinstance(x, ast.Call) and getattr(resolve_call(ck.repo, rm, x), "qualname", None) == fi.qualname and resolve_call(ck.repo, rm, x).file == fi.file)]
     ck.floor(R, len(prs), 1, "parse_response_start_line calls in _read_message")
     hdrs = [n for n, c in rm.cfg.find(lambda x: isinstance(x, ast.Call) and q.call_attr(x) == "headers_received")]
     ids = {n.id for n, _c in prs}
@@ -628,7 +628,7 @@ def check_assembly(ck):
             name = d.split(".")[1]
             if name == root or not repo.has_func(SC, "_HTTPConnection." + name):
                 return None
-            f = repo.func(SC, "_HTTPConnection." + name)
+            f = norm_func(repo, repo.func(SC, "_HTTPConnection." + name))
             return None if isinstance(f.node, ast.AsyncFunctionDef) else f.node
 
         ev.inline = inline
